@@ -41,7 +41,7 @@ func (c *GlobCache) Get(pattern string) (glob.Glob, error) {
 	}
 
 	// try to compile pattern
-	glbCompiled, err := glob.Compile(pattern)
+	glbCompiled, err := compileGlob(pattern)
 	if err != nil {
 		return nil, err
 	}
